@@ -4,6 +4,7 @@ import Driver.Cable
 import Driver.Scan
 import Driver.Views
 import Driver.Connect
+import Driver.Params
 open Driver
 
 def handle (line : String) : String :=
@@ -20,6 +21,8 @@ def handle (line : String) : String :=
   | "view" :: rest => handleView rest
   | "fc" :: rest => handleFC rest
   | "mc" :: rest => handleMC rest
+  | "mt" :: rest => handleMT rest
+  | "scat" :: rest => handleScat rest
   | "ping" :: _ => "pong"
   | _ => "bad-op"
 
